@@ -1,5 +1,99 @@
-(* C31 IP filters match exactly the configured subnets (work in progress). *)
-From V Require Import Model.IpFilter Proofs.IpFilter.
-Example C31_nonvacuous : run_parse (1, (6, 65535*2^32+5), 100) = [0; 4; 5; 4].
-Proof. vm_compute. reflexivity. Qed.
-Print Assumptions C31_nonvacuous.
+(* C31  IP filters match exactly the configured subnets.
+   Property theorems only; the model is Model/IpFilter.v (nibble trie of
+   ntp-proto/src/ipfilter.rs: create with mask + sort, fill_node with the
+   counts/split_at buckets, the <= 4-bit run of nibbles, the union-coverage
+   sweep, children indexed by popcount in one shared node array, lookup with
+   fuel; IpFilter::new / is_in with IPv4 in the top 32 bits and IPv4-mapped
+   canonicalisation; IpSubnet::from_str over the results of the std parsers).
+   Proofs: Proofs/IpFilterArith.v, IpFilterPrefix.v, IpFilterNode.v, IpFilter.v. *)
+From V Require Import Model.IpFilter Gen.ConstIpFilter.
+From V Require Import Proofs.IpFilterArith Proofs.IpFilterNode Proofs.IpFilter.
+
+(* Main theorem.  For EVERY list of subnets whose masks fit their family
+   (IPv4 /0../32, IPv6 /0../128 -- what from_str accepts, C31_parse_wf below) --
+   overlapping, nested, adjacent, duplicated, unmasked host bits, in any order --
+   and EVERY address (IPv4, IPv6, IPv4-mapped IPv6), building the filter and
+   looking the address up succeeds (no panic: the three indexing sites and
+   split_at_mut are never out of bounds; no fuel exhaustion: 33 levels suffice)
+   and answers exactly "some configured subnet contains the address", where
+   containment is the naive mask comparison of the repository's own fuzz oracle
+   (an IPv4-mapped IPv6 address is the IPv4 address it embeds).
+   The only further hypothesis is the size of the list: child offsets are u32 in
+   the code (`child_offset as u32`), the trie has at most 1 + 32 * n nodes, so
+   the statement is proved for lists of fewer than 130 150 524 subnets
+   (1 + 33 n < 2^32); beyond that the code itself truncates the offsets. *)
+Theorem C31_lookup_spec : forall subnets a,
+  Forall wf_subnet subnets -> wf_addr a ->
+  1 + 33 * Z.of_nat (length subnets) < 2 ^ 32 ->
+  (do f <- filter_new subnets; is_in f a) = Ok (existsb (fun s => contains s a) subnets).
+Proof. exact lookup_spec. Qed.
+
+(* The same one level down, for the trie itself on arbitrary 128-bit prefixes
+   (any value, any length 0..128): create followed by lookup is the naive test. *)
+Theorem C31_tree_spec : forall data, Forall entry_in_range data ->
+  1 + 33 * Z.of_nat (length data) < 2 ^ 32 ->
+  exists nodes, create data = Ok nodes /\
+    forall a, in128 a -> lookup nodes a = Ok (existsb (naive a) data).
+Proof. exact create_spec. Qed.
+
+(* IPv4-mapped IPv6 addresses: ::ffff:a.b.c.d is looked up as a.b.c.d. *)
+Theorem C31_mapped : forall f x, 0 <= x < 2 ^ 32 ->
+  is_in f (V6 (65535 * 2 ^ 32 + x)) = is_in f (V4 x).
+Proof. exact mapped_is_in. Qed.
+
+(* Subnet strings: with split = "the string contains a '/'", addr / mask = the
+   results of the standard parsers on the two halves (oracles, any values), the
+   string is accepted exactly when both parse and the mask fits the address
+   family after canonicalisation (IPv4: <= 32; IPv6: <= 128; IPv4-mapped IPv6
+   ::ffff:a.b.c.d/m: 96 <= m <= 128), and the result is the canonical subnet
+   (a.b.c.d/(m-96) for the mapped form). *)
+Theorem C31_parse : forall split addr mask s,
+  from_str split addr mask = Ok s <->
+  split = true /\ exists a m, addr = Some a /\ mask = Some m /\ mask_fits a m /\ s = canonical_subnet a m.
+Proof. exact from_str_spec. Qed.
+
+(* ... which error is reported otherwise (syntax, address, mask, and the
+   "mask overflows the IPv4 range" error for a mapped address with m < 96). *)
+Theorem C31_parse_errors : forall split addr mask,
+  (split = false -> from_str split addr mask = Err E_SUBNET) /\
+  (split = true -> addr = None -> from_str split addr mask = Err E_IP) /\
+  (forall a, split = true -> addr = Some a -> mask = None -> from_str split addr mask = Err E_MASK) /\
+  (forall x m, split = true -> addr = Some (V6 x) -> mask = Some m -> x / 2 ^ 32 = 65535 -> m < 96 ->
+     from_str split addr mask = Err E_MASK_V4_RANGE).
+Proof. exact from_str_errors. Qed.
+
+(* Every accepted subnet satisfies the hypothesis of C31_lookup_spec and is in
+   canonical form (never an IPv4-mapped IPv6 subnet). *)
+Theorem C31_parse_wf : forall split a m s, wf_addr a -> 0 <= m < 256 ->
+  from_str split (Some a) (Some m) = Ok s -> wf_subnet s /\ to_canonical (s_addr s) = s_addr s.
+Proof. exact from_str_wf. Qed.
+
+(* non-vacuity: /0, a duplicate, nested prefixes, two adjacent /5 halves that
+   together cover the nibble 0x1, a /128, IPv4 next to IPv6, and mapped lookups *)
+Definition ex_subnets : list subnet :=
+  [ mk_subnet (V4 (127 * 2 ^ 24)) 8; mk_subnet (V4 (127 * 2 ^ 24 + 5)) 8;
+    mk_subnet (V4 (10 * 2 ^ 24)) 7; mk_subnet (V4 (10 * 2 ^ 24 + 3 * 2 ^ 16)) 16;
+    mk_subnet (V6 (16 * 2 ^ 120)) 5; mk_subnet (V6 (24 * 2 ^ 120)) 5;
+    mk_subnet (V6 (2 ^ 128 - 1)) 128; mk_subnet (V6 (65535 * 2 ^ 32 + 9 * 2 ^ 24)) 104 ].
+
+Example C31_nonvacuous :
+  Forall wf_subnet ex_subnets /\
+  map (fun a => do f <- filter_new ex_subnets; is_in f a)
+      [V4 (127 * 2 ^ 24 + 1); V4 (11 * 2 ^ 24 + 7); V4 (12 * 2 ^ 24); V6 (65535 * 2 ^ 32 + 10 * 2 ^ 24 + 1);
+       V6 (65535 * 2 ^ 32 + 9 * 2 ^ 24 + 1); V6 (16 * 2 ^ 120 + 1); V6 (31 * 2 ^ 120); V6 (32 * 2 ^ 120);
+       V6 (2 ^ 128 - 1); V6 (2 ^ 128 - 2)]
+  = map Ok [true; true; false; true; false; true; true; false; true; false] /\
+  (do f <- filter_new [mk_subnet (V4 5) 0]; is_in f (V4 (2 ^ 32 - 1))) = Ok true /\
+  from_str true (Some (V6 (65535 * 2 ^ 32 + 192 * 2 ^ 24))) (Some 120) = Ok (mk_subnet (V4 (192 * 2 ^ 24)) 24) /\
+  from_str true (Some (V6 (65535 * 2 ^ 32 + 192 * 2 ^ 24))) (Some 95) = Err E_MASK_V4_RANGE.
+Proof.
+  split. { repeat constructor; vm_compute; intuition discriminate. }
+  vm_compute. repeat split.
+Qed.
+
+Print Assumptions C31_lookup_spec.
+Print Assumptions C31_tree_spec.
+Print Assumptions C31_mapped.
+Print Assumptions C31_parse.
+Print Assumptions C31_parse_errors.
+Print Assumptions C31_parse_wf.
